@@ -194,7 +194,8 @@ class BackendWorld:
         obj = self.objs[s]
         for k in keys:
             prev = obj
-            cur, obj = self.state(("ufork", chain[-1], k), lambda prev=prev, k=k: prev.fork(k))
+            # h.fork(k) by the user and by the scheduler are one and the same state
+            cur, obj = self.state(("fork", chain[-1], k), lambda prev=prev, k=k: prev.fork(k))
             chain.append(cur)
         return chain, obj
 
@@ -302,10 +303,15 @@ def backend_oracle(ctx: Ctx, case) -> BackendWorld:
 @st.composite
 def workflow_cases(draw):
     explicit = draw(st.sampled_from([False, False, True]))
-    n = draw(st.sampled_from([1, 2, 2, 3, 3, 4, 4]))
+    family = draw(st.sampled_from(["any", "any", "merge", "merge"]))
+    n = draw(st.sampled_from([2, 2, 3, 3, 4] if family == "merge" else [1, 2, 2, 3, 3, 4, 4]))
     pre = []
     for i in range(n):
         src = draw(st.integers(-1, i - 1))
+        if family == "merge" and i == n - 1:
+            consumed = {p[1] for p in pre} | {src}
+            if all(j in consumed for j in range(n - 1)):
+                src = -1      # keep at least two leaves
         uf = draw(st.sampled_from([None, "a", "b"])) if explicit else None
         if uf is not None and any(p[1] == src and p[2] == uf for p in pre):
             uf = None     # same source + same key = same state (see oracle); keep it rare
@@ -315,9 +321,12 @@ def workflow_cases(draw):
     merge = None
     post = []
     if len(leaves) >= 2:
-        merge = draw(st.one_of(st.none(), st.integers(0, len(leaves) - 1)))
+        if family == "merge":
+            merge = draw(st.integers(0, len(leaves) - 1))
+        else:
+            merge = draw(st.one_of(st.none(), st.integers(0, len(leaves) - 1)))
     if merge is not None or len(leaves) == 1:
-        for _ in range(draw(st.integers(0, 2))):
+        for _ in range(draw(st.integers(1 if family == "merge" else 0, 2))):
             post.append([draw(st.integers(0, 2)), draw(st.sampled_from([None, "a"])) if explicit else None])
     nruns = draw(st.integers(2, 6))
     runs = [[0, 0, 0]]
@@ -649,8 +658,8 @@ def run_workflow_case(ctx: Ctx, case) -> None:
 
 def check(ctx: Ctx) -> None:
     C.quiet_logs()
-    ctx.given(backend_cases, lambda c: run_backend_case(ctx, c), ctx.n(400, 16000))
-    ctx.given(workflow_cases(), lambda c: run_workflow_case(ctx, c), ctx.n(60, 2400))
+    ctx.given(backend_cases, lambda c: run_backend_case(ctx, c), ctx.n(300, 16000))
+    ctx.given(workflow_cases(), lambda c: run_workflow_case(ctx, c), ctx.n(80, 3200))
 
 
 def replay(ctx: Ctx, case) -> None:
